@@ -57,6 +57,7 @@ def obs_impl(m, cls):
              spatial_dim=int(m.spatial_dim), var_factor=float(m.var_factor()))
     if cls in CLOSED_INT:
         o["int_scale"] = float(m.integral_scale)
+    o["sft_ndim"] = int(m._sft.ndim)       # hidden derived state (Hankel transform); model: sft_ndim = dim
     return o
 
 
@@ -128,10 +129,11 @@ def obs_model(drv, ci, ms):
                 nugget=float(v4[2]), rescale=float(v4[3]), anis=np.asarray(an, float), angles=np.asarray(ang, float),
                 opts=np.asarray(op, float), bounds=np.asarray(bm, float).reshape(-1, 4), var=float(v5[0]),
                 sill=float(v5[1]), len_rescaled=float(v5[2]), var_factor=float(v5[3]), int_scale=float(v5[4]),
-                len_scale_vec=np.asarray(lsv, float), field_dim=int(fd), spatial_dim=int(sd), inb=bool(inb))
+                len_scale_vec=np.asarray(lsv, float), field_dim=int(fd), spatial_dim=int(sd), inb=bool(inb),
+                sft_ndim=int(d))           # derived component of the model's DState (C14_hidden_state_coherent)
 
 
-EXACT = ["dim", "latlon", "temporal", "nugget", "rescale", "anis", "angles", "opts", "bounds", "field_dim", "spatial_dim"]
+EXACT = ["dim", "latlon", "temporal", "nugget", "rescale", "anis", "angles", "opts", "bounds", "field_dim", "spatial_dim", "sft_ndim"]
 LENF = ["len_scale", "len_rescaled", "len_scale_vec"]
 VARF = ["var_raw", "var", "sill", "var_factor"]
 
@@ -522,27 +524,69 @@ def _positions(dim, latlon, temporal):
     return _POS[key]
 
 
-def behave(m):
-    """results of the model's methods that depend on the parameters: must be functions of the PRESENT parameter
-    values only (a model reached by a history behaves like a freshly constructed one)"""
+def behave(m, heavy=False, touch=False):
+    """results of EVERY public derived function of the model: they must be functions of the PRESENT primary parameter
+    values only (a model reached by a history behaves like a freshly constructed one).  Hidden derived state they
+    use (the Hankel transform object _sft, caches) is thereby compared through its effects.
+    heavy=True adds the numerically integrated integral scales (tens of ms): used at the comparison points;
+    touch=True only exercises the cache / hidden-state users (called after every single step)."""
     dim, ll, tt = int(m.dim), bool(m.latlon), bool(m.temporal)
     full, field, r = _positions(dim, ll, tt)
+    k = np.array([0.0, 0.05, 0.4, 1.3, 6.0])
+    u = np.array([0.05, 0.5, 0.93])
     out = {}
 
     def call(name, fn):
         try:
-            out[name] = np.asarray(fn(), dtype=float)
+            v = fn()
+            if isinstance(v, dict):
+                v = [float(v[q]) for q in sorted(v) if isinstance(v[q], (int, float, np.floating, np.integer, bool, np.bool_))]
+            out[name] = np.asarray(v, dtype=float)
         except Exception as e:                                  # compared as well: both objects must do the same
             out[name] = "exception:" + type(e).__name__
     call("isometrize", lambda: m.isometrize(field))
     call("anisometrize", lambda: m.anisometrize(full))
-    call("vario_spatial", lambda: m.vario_spatial(full))
     call("main_axes", lambda: m.main_axes())
-    call("variogram", lambda: m.variogram(r))
+    if touch:
+        # after every step: only exercise the code paths that may fill caches / use hidden state
+        call("vario_spatial", lambda: m.vario_spatial(full))
+        call("spectral_density", lambda: m.spectral_density(k))
+        return out
+    for f in ("vario_spatial", "cov_spatial", "cor_spatial"):
+        call(f, lambda f=f: getattr(m, f)(full))
+    for f in ("variogram", "covariance", "correlation", "vario_nugget", "cov_nugget"):
+        call(f, lambda f=f: getattr(m, f)(r))
+    call("cor", lambda: m.cor(r))
     if ll:
-        call("vario_yadrenko", lambda: m.vario_yadrenko(r / 10.0))
+        for f in ("vario_yadrenko", "cov_yadrenko", "cor_yadrenko"):
+            call(f, lambda f=f: getattr(m, f)(r / 10.0))
     elif dim > 1:
-        call("vario_axis", lambda: m.vario_axis(r, axis=dim - 1))
+        for f in ("vario_axis", "cov_axis", "cor_axis"):
+            call(f, lambda f=f: getattr(m, f)(r, axis=dim - 1))
+    # spectral side (classes without an analytic spectral density go through the Hankel transform m._sft)
+    call("spectral_density", lambda: m.spectral_density(k))
+    call("spectrum", lambda: m.spectrum(k))
+    call("spectral_rad_pdf", lambda: m.spectral_rad_pdf(k))
+    call("ln_spectral_rad_pdf", lambda: m.ln_spectral_rad_pdf(k[1:]))
+    call("has_cdf_ppf", lambda: [float(m.has_cdf), float(m.has_ppf)])
+    if m.has_cdf:
+        call("spectral_rad_cdf", lambda: m.spectral_rad_cdf(k))
+    if m.has_ppf:
+        call("spectral_rad_ppf", lambda: m.spectral_rad_ppf(u))
+    call("percentile_scale", lambda: m.percentile_scale(0.9))
+    call("scales", lambda: np.concatenate([[m.sill, m.len_rescaled, m.var_factor(), m.default_rescale()], m.len_scale_vec]))
+    call("flags", lambda: [float(m.is_isotropic), float(m.do_rotation), float(m.field_dim), float(m.spatial_dim)])
+    call("pykrige_kwargs", lambda: m.pykrige_kwargs)
+    call("pykrige_vario", lambda: m.pykrige_vario(r=r))
+    call("iso_arg_list", lambda: [float(x) for x in m.iso_arg_list])
+    call("sft_ndim", lambda: m._sft.ndim)
+    if hasattr(m, "len_up"):
+        call("tpl_lengths", lambda: [m.len_up, m.len_up_rescaled, m.len_low_rescaled])
+    closed = type(m).__name__ in CLOSED_INT
+    if heavy or closed:
+        call("integral_scale", lambda: m.integral_scale)        # scipy quad for the 11 classes without closed form
+    if closed:
+        call("integral_scale_vec", lambda: m.integral_scale_vec)  # (dim quadratures otherwise: integral_scale * anis)
     return out
 
 
@@ -636,7 +680,7 @@ class History:
         self.ms = val
         self.optn = list(self.m.arg_bounds)[4:]
         self.names = list(self.m.arg_bounds)
-        behave(self.m)
+        behave(self.m, touch=True)
         self.o = obs_impl(self.m, self.cls)
         self.compare("construct")
         self.shape_probe("construct")
@@ -850,7 +894,7 @@ class History:
             self.loose_len = True
         if k in ("set_arg_bounds", "bounds_prop"):
             self.bounds_ops = True
-        behave(self.m)                                          # may fill caches: later results must still be fresh
+        behave(self.m, touch=True)                              # may fill caches: later results must still be fresh
         self.o = obs_impl(self.m, self.cls)
         if self.o["dim"] != before["dim"]:
             self.dim_changed = True
@@ -939,8 +983,8 @@ class History:
         eq = bool(self.m == f) and bool(f == self.m)
         self.ctx.count((self.cls, self.kind, "fresh", "var" if use_var else "var_raw", is_default),
                        hist=dict(fresh="compared (%s bounds)" % ("default" if is_default else "assigned")))
-        bdiff = behaviour_diff(behave(self.m), behave(f))
-        if bdiff and not diff:
+        bdiff = behaviour_diff(behave(self.m, heavy=True), behave(f, heavy=True))
+        if bdiff and not [x for x in diff if x != "sft_ndim"]:
             self.viol("probe: behaviour of the final object vs a directly constructed object",
                       "%s (%s): all parameters equal, but %s differ (stale derived state)" % (self.cls, self.kind, bdiff),
                       "behaviour-differs:%s" % ",".join(sorted(bdiff)), dict(fresh_kwargs=kw))
@@ -975,7 +1019,7 @@ def run_history(ctx, drv, rng, cls, kind, latlon, temporal, n_ops, tie_log):
             if not h.step(gen_op(rng, cls, h.o, h.optn)):
                 alive = False
                 break
-            if rng.random() < 0.15:
+            if rng.random() < 0.3:
                 h.fresh_probe(rng)
         if alive:
             h.fresh_probe(rng)
@@ -1124,7 +1168,7 @@ def run_cvs(ctx, cfg):
         B = Cls(**base)
         for n in order:
             setattr(B, n, cp(vals[n]))
-            behave(B)
+            behave(B, touch=True)
         return B
     B, eb = attempt(by_setters)
     if ea == "arith" or eb == "arith" or (ea and eb):
@@ -1143,7 +1187,7 @@ def run_cvs(ctx, cfg):
                       "%s (%s): %s(**%s).var = %r, expected %r" % (cls, kind, cls, dict(base, **vals), oa["var"], vals["var"]),
                       case, key="var-roundtrip:constructor")
     diff = [k for k in oa if not same_val(oa[k], ob[k], True)]
-    bdiff = behaviour_diff(behave(A), behave(B))
+    bdiff = behaviour_diff(behave(A, heavy=True), behave(B, heavy=True))
     if diff or bdiff or not (A == B and B == A):
         ctx.violation("probe: constructor vs assignment history",
                       "%s (%s): %s(**%s) differs from the model reached by assigning the same values in the order %s: %s%s" % (
@@ -1164,7 +1208,7 @@ def run_cvs(ctx, cfg):
         return
     oc = obs_impl(Cm, cls)
     diff = [k for k in oa if not same_val(oa[k], oc[k], True)]
-    bdiff = behaviour_diff(behave(A), behave(Cm))
+    bdiff = behaviour_diff(behave(A, heavy=True), behave(Cm, heavy=True))
     if diff or bdiff:
         ctx.violation("probe: model rebuilt from its reported parameters",
                       "%s (%s): %s(**%s) differs from the model rebuilt from its reported parameters in %s %s" % (
@@ -1254,7 +1298,7 @@ def run_alias(ctx, cfg):
                 B.integral_scale = given["len_scale"]
             elif x == "nugget":
                 B.nugget = 0.5
-            behave(B)
+            behave(B, touch=True)
             if not check("operation " + x):
                 return
     except (ValueError, IndexError, ZeroDivisionError):
@@ -1489,14 +1533,18 @@ def run(ctx):
     try:
         if drv is not None:
             tie_broken += witness_probes(ctx, drv)
+            t1 = time.time()
             boundary_sweep(ctx, quick=(ctx.tier == "quick"))
-            for rep in range(3 if ctx.tier == "quick" else 25):
+            t2 = time.time()
+            for rep in range(3 if ctx.tier == "quick" else 8):
                 for cls in CLASSES:
                     for kind, ll, tt in KINDS:
                         run_cvs(ctx, gen_cvs(rng, cls, kind, ll, tt))
                         if rep % 2 == 0:
                             run_alias(ctx, gen_alias(rng, cls, kind, ll, tt))
-            per = 3 if ctx.tier == "quick" else 60
+            t3 = time.time()
+            ctx.notes.append("stage times: boundary sweep %.0fs, constructor-vs-history + aliasing probes %.0fs" % (t2 - t1, t3 - t2))
+            per = 3 if ctx.tier == "quick" else 24
             for rep in range(per):
                 for cls in CLASSES:
                     for kind, ll, tt in KINDS:
